@@ -7,6 +7,7 @@ import Driver.Codegen
 import Driver.Timeout
 import Driver.Manager
 import Driver.Stream
+import Driver.Tls
 open Anemo Anemo.Driver
 
 /-- state carried across lines by the stateful models -/
@@ -33,6 +34,7 @@ def step (st : DState) (line : String) : DState × String :=
     else if cmd.startsWith "listener." || cmd.startsWith "tick." then
       let (ms, o) := managerOp st.manager cmd args
       ({ st with manager := ms }, o)
+    else if cmd.startsWith "tls." then (st, tlsOp cmd args)
     else if cmd.startsWith "stream." then (st, streamOp cmd args)
     else if cmd.startsWith "timeout." then (st, timeoutOp cmd args)
     else if cmd.startsWith "codegen." then (st, codegenOp cmd args)
